@@ -1,2 +1,235 @@
-(* Props.C12 — placeholder; theorems are being added. *)
-Require Import PyStr Writer.
+(* Props.C12 — writer options change presentation only, never content (1.2 <-> 2.0 included).
+   Statements only; the proofs are in Proofs/OrderTableProofs.v (the value/description order
+   tables), Proofs/WriteOptionsProofs.v (write factors into a header part that sees only
+   `version` and `wrap` and a data part) and Proofs/WriteHeaderProofs.v (the item round trip
+   of C03, used for the 1.2 <-> 2.0 statement).
+
+   Reading.  R (W o1 x) ~ R (W o2 x) is split along the two halves of the file.
+   HEADER.  write (Model/Writer.v) = write_sections (wo_version o) (wo_wrap o) m  — steps 1-9:
+   WRAP item, version, VERS substituted in a copy of ~Version, STRT/STOP/STEP refresh, unit
+   alignment, standardize_value, the item lines of the four sections — followed by
+   header_lines (wo_header_width o): the title lines "~Version -----" around those item lines,
+   followed by write_data o: the ~ASCII line and the data lines (C12_write_factors).
+   write_sections does not take the option record at all, so two configurations that agree on
+   `version` and `wrap` produce the same item lines and leave the same in-memory file
+   (C12_header_independent_of_data_options, C12_state_independent_of_presentation); the item
+   lines are section_lines of the sections of that file (C12_written_lines), which C03 reads
+   back.  VERSION.  The order in which value and description are laid out is looked up by
+   writer (order_of, keyed by the original mnemonic) and reader (order_for, keyed by the parsed,
+   case-mapped name) in the SAME generated table (Gen/Tables.v, re-translated from
+   lasio/defaults.py ORDER_DEFINITIONS on every run) in the same way
+   (C12_order_tables_agree), the lookup does not depend on the reader's mnemonic_case
+   (C12_order_case_insensitive), hence writer order = reader order (C12_order_symmetric) and an
+   item written for 1.2 and read as 1.2 equals the item written for 2.0 and read as 2.0
+   (C12_version_swap_meaning): the swap is on disk only (C12_swap_on_disk).
+
+   The facts about the CONTENT of the table are boolean checks evaluated by the kernel on the
+   generated literal (C12_table_checks): every (version, standard section) has an entry;
+   every exception list gives a listed mnemonic the same order as its upper-cased form (so
+   that looking up "strt", "STRT" or — after the fallback to upper() — "Strt" agree); ~Curves
+   and ~Parameter are value-first without exceptions (the reader never consults the table
+   there).  An edit of ORDER_DEFINITIONS that breaks one of them breaks the proof.
+
+   PROVED AT FULL STRENGTH: C12_order_tables_agree, C12_order_case_insensitive,
+   C12_order_symmetric (all versions, the four standard sections, all mnemonics, all three
+   case options — F16's side condition on mixed-case mnemonics is not needed on the current
+   tree: the reader falls back to name.upper() exactly as the writer does),
+   C12_write_factors, C12_header_independent_of_data_options,
+   C12_state_independent_of_presentation (every oracle, every in-memory file, every pair of
+   option records), C12_version_swap_meaning (every conformant item, arbitrary widths).
+
+   NOT PROVED HERE (correspondence runs of the harness only): equality of the DATA section
+   read back under two configurations "whose numeric formats have equal precision" — that is
+   a statement about the oracle fmtv (CPython's % formatting) composed with the data reader;
+   VERS and WRAP themselves differ by construction (excluded by the property);
+   the composition header text -> find_sections -> parse_body for a whole file.
+
+   ORACLES: all theorems hold for arbitrary fmtv, fmt_diff, fmt_pi, fstr, fzero, numeq. *)
+From Coq Require Import List NArith ZArith Bool String.
+Import ListNotations.
+Require Import PyStr Regex NumLit Num HeaderLine Tables SectionParse DataRead Read Writer.
+Require Import HeaderLineSpec OrderTableProofs WriteHeaderProofs WriteOptionsProofs.
+Open Scope string_scope. Open Scope list_scope. Open Scope N_scope.
+
+(* 0. what the proofs need from the generated table, checked on the literal *)
+Theorem C12_table_checks :
+  table_complete_for order_definitions = true /\
+  table_case_consistent_for order_definitions = true /\
+  table_curves_param_plain_for order_definitions = true.
+Proof.
+  exact (conj table_complete_ok (conj table_case_consistent_ok table_curves_param_plain_ok)).
+Qed.
+
+(* 1. writer and reader consult the same table in the same way *)
+Theorem C12_order_tables_agree : forall v k m, is_std k = true ->
+  order_of v (sect_table_name k) m = Some (order_for v k m).
+Proof. exact order_tables_agree. Qed.
+
+(* 2. the reader's mnemonic_case does not change the order *)
+Theorem C12_order_case_insensitive : forall v k c m,
+  order_for v k (apply_case c m) = order_for v k m.
+Proof. exact order_case_insensitive. Qed.
+
+Theorem C12_upper_facts : forall m,
+  upper (upper m) = upper m /\ upper (lower m) = upper m.
+Proof. intros m. split; [apply upper_idem|apply upper_lower]. Qed.
+
+(* 1+2: the order the writer lays a line out in (keyed by the original mnemonic) is the order
+   the reader applies to it (keyed by the case-mapped name; ~Curves / ~Parameter: value first) *)
+Theorem C12_order_symmetric : forall v k c m, is_std k = true ->
+  order_of v (sect_table_name k) m = Some (reader_order v k (apply_case c m)).
+Proof. exact writer_order_is_reader_order. Qed.
+
+Theorem C12_reader_order_is_build_item : forall fstr v k o name u it,
+  o = reader_order v k name ->
+  build_item v k (mkhl name u (rhs_text fstr o it) (tail_text fstr o it)) =
+  new_item name (strip_brackets u) (read_value k name (vstr fstr (i_value it))) (i_descr it).
+Proof. exact build_item_unswaps. Qed.
+
+(* 3. write = header part (version, wrap) ; title lines (header_width) ; data part *)
+Theorem C12_write_factors : forall fmtv fmt_diff fmt_pi fstr fzero numeq (o : wopts) (m : mlas),
+  write fmtv fmt_diff fmt_pi fstr fzero numeq o m =
+  match write_sections fmtv fmt_diff fstr fzero numeq (wo_version o) (wo_wrap o) m with
+  | None => WErr WKeyError
+  | Some hs =>
+      match write_data fmtv fmt_pi fstr o hs with
+      | Some d => WOk (join [ch_nl] (header_lines (wo_header_width o) hs) ++ [ch_nl] ++ d)
+                      (mkmlas (hs_las hs) (m_index_initial m))
+      | None => WErr WKeyError
+      end
+  end.
+Proof. exact write_factors. Qed.
+
+Theorem C12_header_independent_of_data_options :
+  forall fmtv fmt_diff fmt_pi fstr fzero numeq (o1 o2 : wopts) (m : mlas) t1 m1 t2 m2,
+  wo_version o1 = wo_version o2 -> wo_wrap o1 = wo_wrap o2 ->
+  write fmtv fmt_diff fmt_pi fstr fzero numeq o1 m = WOk t1 m1 ->
+  write fmtv fmt_diff fmt_pi fstr fzero numeq o2 m = WOk t2 m2 ->
+  exists hs d1 d2,
+    write_sections fmtv fmt_diff fstr fzero numeq (wo_version o1) (wo_wrap o1) m = Some hs /\
+    t1 = join [ch_nl] (header_lines (wo_header_width o1) hs) ++ [ch_nl] ++ d1 /\
+    t2 = join [ch_nl] (header_lines (wo_header_width o2) hs) ++ [ch_nl] ++ d2.
+Proof. exact header_independent_of_data_options. Qed.
+
+Theorem C12_header_text_independent :
+  forall fmtv fmt_diff fmt_pi fstr fzero numeq (o1 o2 : wopts) (m : mlas) t1 m1 t2 m2,
+  wo_version o1 = wo_version o2 -> wo_wrap o1 = wo_wrap o2 -> wo_header_width o1 = wo_header_width o2 ->
+  write fmtv fmt_diff fmt_pi fstr fzero numeq o1 m = WOk t1 m1 ->
+  write fmtv fmt_diff fmt_pi fstr fzero numeq o2 m = WOk t2 m2 ->
+  exists h d1 d2, t1 = h ++ [ch_nl] ++ d1 /\ t2 = h ++ [ch_nl] ++ d2.
+Proof. exact header_text_independent. Qed.
+
+Theorem C12_state_independent_of_presentation :
+  forall fmtv fmt_diff fmt_pi fstr fzero numeq (o1 o2 : wopts) (m : mlas) t1 m1 t2 m2,
+  wo_version o1 = wo_version o2 -> wo_wrap o1 = wo_wrap o2 ->
+  write fmtv fmt_diff fmt_pi fstr fzero numeq o1 m = WOk t1 m1 ->
+  write fmtv fmt_diff fmt_pi fstr fzero numeq o2 m = WOk t2 m2 ->
+  m1 = m2.
+Proof. exact state_independent_of_presentation. Qed.
+
+(* the item lines are section_lines of the sections of the file after the call *)
+Theorem C12_written_lines : forall fmtv fmt_diff fstr fzero numeq ver wrapo m hs,
+  write_sections fmtv fmt_diff fstr fzero numeq ver wrapo m = Some hs ->
+  section_lines fstr (hs_version hs) (s2l "Version") (hs_vers_items hs) = Some (hs_lv hs) /\
+  section_lines fstr (hs_version hs) (s2l "Well") (s_items (l_well (hs_las hs))) = Some (hs_lw hs) /\
+  section_lines fstr (hs_version hs) (s2l "Curves") (s_items (l_curves (hs_las hs))) = Some (hs_lc hs) /\
+  section_lines fstr (hs_version hs) (s2l "Parameter") (s_items (l_params (hs_las hs))) = Some (hs_lp hs).
+Proof. exact write_sections_lines. Qed.
+
+(* 4. 1.2 <-> 2.0: the same item written for v1 and read as v1, written for v2 and read as v2
+   (widths arbitrary and possibly different: other items of the section may differ) *)
+Theorem C12_version_swap_meaning : forall fstr k c it v1 v2 lw1 mw1 lw2 mw2, is_std k = true ->
+  let o1 := sec_ord v1 (sect_table_name k) it in
+  let o2 := sec_ord v2 (sect_table_name k) it in
+  conf_item fstr k o1 lw1 mw1 it = true -> covers fstr o1 lw1 mw1 it ->
+  conf_item fstr k o2 lw2 mw2 it = true -> covers fstr o2 lw2 mw2 it ->
+  parse_line v1 k c (format_item fstr o1 lw1 mw1 it) = Some (expected_item fstr k c it) /\
+  parse_line v2 k c (format_item fstr o2 lw2 mw2 it) = Some (expected_item fstr k c it).
+Proof. exact version_swap_meaning. Qed.
+
+(* on disk the two differ for every ~Well mnemonic that is not a listed exception: 1.2 puts the
+   description in the middle field and the value after the colon, 2.0 the other way round *)
+Theorem C12_swap_on_disk : forall fstr lw mw it,
+  is_exception V12 KWell (i_orig it) = false ->
+  sec_ord V12 (sect_table_name KWell) it = DescrValue /\
+  sec_ord V20 (sect_table_name KWell) it = ValueDescr /\
+  format_item fstr DescrValue lw mw it =
+    layout [] (i_orig it) (pad1 lw it) (i_unit it) (pad2 fstr DescrValue mw it) (i_descr it)
+           [32] [32] (vstr fstr (i_value it)) [] /\
+  format_item fstr ValueDescr lw mw it =
+    layout [] (i_orig it) (pad1 lw it) (i_unit it) (pad2 fstr ValueDescr mw it) (vstr fstr (i_value it))
+           [32] [32] (i_descr it) [].
+Proof.
+  intros fstr lw mw it Hx. destruct (well_orders_differ it Hx) as [H1 H2].
+  split; [exact H1|]. split; [exact H2|]. split; [apply format_descr_first|apply format_value_first].
+Qed.
+
+(* ---- non-vacuity ------------------------------------------------------------------------ *)
+Definition ex_it : hitem := new_item (s2l "Comp") [] (VStr (s2l "ANY OIL CO.")) (s2l "COMPANY").
+Definition ex_strt : hitem := new_item (s2l "Strt") (s2l "M") (VFloat (s2l "1670.0")) (s2l "START").
+
+Example C12_ex_orders :
+  order_of V12 (s2l "Well") (s2l "Comp") = Some DescrValue /\
+  order_of V20 (s2l "Well") (s2l "Comp") = Some ValueDescr /\
+  (* mixed case: exact lookup fails, the upper-cased lookup finds the exception, in writer and reader *)
+  order_of V12 (s2l "Well") (s2l "Strt") = Some ValueDescr /\
+  order_for V12 KWell (s2l "Strt") = ValueDescr /\ order_for V12 KWell (s2l "strt") = ValueDescr /\
+  is_exception V12 KWell (s2l "Comp") = false /\ is_exception V12 KWell (s2l "Strt") = true.
+Proof. vm_compute. repeat split; reflexivity. Qed.
+
+Example C12_ex_swap_text :
+  l2s (format_item (fun l => l) DescrValue 4 20 ex_it) = "Comp.             COMPANY : ANY OIL CO."%string /\
+  l2s (format_item (fun l => l) ValueDescr 4 20 ex_it) = "Comp.         ANY OIL CO. : COMPANY"%string.
+Proof. vm_compute. split; reflexivity. Qed.
+
+Example C12_ex_swap_hyps :
+  conf_item (fun l => l) KWell (sec_ord V12 (sect_table_name KWell) ex_it) 4 20 ex_it = true /\
+  conf_item (fun l => l) KWell (sec_ord V20 (sect_table_name KWell) ex_it) 6 25 ex_it = true /\
+  (List.length (i_orig ex_it) <= 4)%nat /\
+  (List.length (i_unit ex_it) + 1 + List.length (rhs_text (fun l => l) (sec_ord V12 (sect_table_name KWell) ex_it) ex_it) <= 20)%nat.
+Proof. vm_compute. repeat split; try reflexivity; repeat constructor. Qed.
+
+Example C12_ex_swap_read :
+  parse_line V12 KWell CaseUpper (format_item (fun l => l) DescrValue 4 20 ex_it)
+  = parse_line V20 KWell CaseUpper (format_item (fun l => l) ValueDescr 6 25 ex_it) /\
+  option_map (fun it => (l2s (i_orig it), i_value it, l2s (i_descr it)))
+             (parse_line V12 KWell CaseUpper (format_item (fun l => l) DescrValue 4 20 ex_it))
+  = Some ("COMP"%string, VStr (s2l "ANY OIL CO."), "COMPANY"%string).
+Proof. vm_compute. split; reflexivity. Qed.
+
+(* two option records that differ in every presentation option *)
+Definition ex_o1 : wopts := mkwopts (Some W12) (Some false) (s2l "%.5f") [] LAuto [32] [32] 79 60 (s2l "~ASCII") false.
+Definition ex_o2 : wopts := mkwopts (Some W12) (Some false) (s2l "%.2f") [(1%nat, s2l "%d")] (LFixed 12) [] [44] 40 60 (s2l "~A") true.
+Definition ex_las : mlas :=
+  mkmlas (mklas (mksect [new_item (s2l "VERS") [] (VFloat (s2l "2.0")) (s2l "v"); new_item (s2l "WRAP") [] (VStr (s2l "NO")) []] false)
+                (mksect [new_item (s2l "STRT") (s2l "M") (VFloat (s2l "1.0")) []; new_item (s2l "STOP") (s2l "M") (VFloat (s2l "2.0")) [];
+                         new_item (s2l "STEP") (s2l "M") (VFloat (s2l "1.0")) []; new_item (s2l "NULL") [] (VFloat (s2l "-999.25")) [];
+                         ex_it] false)
+                (mksect [new_item (s2l "DEPT") (s2l "M") (VStr []) []; new_item (s2l "GR") [] (VStr []) []] false)
+                (mksect [] false) [] [] [[CNum (s2l "1.0"); CNum (s2l "2.0")]; [CNum (s2l "5"); CNaN]] true)
+         None.
+(* stand-ins for the oracles: any functions do (the theorems quantify over them) *)
+Definition ex_write (o : wopts) : wres :=
+  write (fun f t => f ++ t) (fun a b => a ++ b) (fun f => f ++ s2l "3.14159") (fun l => l)
+        (fun l => false) (fun a b => str_eqb a b) o ex_las.
+
+Example C12_ex_write_both_ok :
+  match ex_write ex_o1, ex_write ex_o2 with
+  | WOk t1 m1, WOk t2 m2 => negb (str_eqb t1 t2) && Nat.ltb 100 (List.length t1)
+  | _, _ => false
+  end = true.
+Proof. vm_compute. reflexivity. Qed.
+
+Print Assumptions C12_table_checks.
+Print Assumptions C12_order_tables_agree.
+Print Assumptions C12_order_case_insensitive.
+Print Assumptions C12_upper_facts.
+Print Assumptions C12_order_symmetric.
+Print Assumptions C12_reader_order_is_build_item.
+Print Assumptions C12_write_factors.
+Print Assumptions C12_header_independent_of_data_options.
+Print Assumptions C12_header_text_independent.
+Print Assumptions C12_state_independent_of_presentation.
+Print Assumptions C12_written_lines.
+Print Assumptions C12_version_swap_meaning.
+Print Assumptions C12_swap_on_disk.
